@@ -34,8 +34,8 @@ CHECK = {
               'realisations (6.7M); sibling sequences 1.07M; siblings inside a try 4.2M; ASan+UBSan: depth 1 full (with chaining and forks on a '
               'shard), depth 2 and 3 and sequences on smaller alphabets'),
     'thorough': ('depth 1 as quick; depth 2: 9-statement alphabet, pre/post in {nop,A,B} (34M), chaining over {nop,A,B,K0} with pre/post (1.05M x residual '
-                 'states), 262k depth-2 programs without sentinel in forked children; depth 3: {nop,A,B,K0} (67M), {nop,A,B} with pre/post (60M), '
-                 '{nop,A,B,K0,K1} lexical body-nesting (25M); sequences 8.5M; siblings inside a try 25M; ASan+UBSan instances of each family'),
+                 'states), 262k depth-2 programs without sentinel in forked children; depth 3: {nop,A,B,K0,K1} in 8 slots x 64 filter triples x 4 shapes x 4 '
+                 'realisations (400M), {nop,A,B} with pre/post (60M); sequences 8.5M; siblings inside a try 25M; ASan+UBSan instances of each family'),
   },
   'assumptions': [
     'exception kinds are type objects created with CelloEmpty, compared by eq (type name); thrown objects that are not types are not explored',
@@ -55,7 +55,7 @@ CHECK = {
       + S('seqt', 'base', 4, 'kind=seqt', 'alpha=0124', 'ppalpha=0')
       + S('d3', 'base', 4, 'depth=3', 'alpha=012', 'ppalpha=0')
       + [X('d1-asan', 'asan', 'depth=1', 'alpha=' + ALL, 'ppalpha=' + ALL, 'chain=1'),
-         X('d1-fork-asan', 'asan', 'depth=1', 'alpha=' + ALL, 'ppalpha=012', 'main=0', 'fork=1', 'shard=0/4'),
+         X('d1-fork-asan', 'asan', 'depth=1', 'alpha=' + ALL, 'ppalpha=012', 'main=0', 'fork=1', 'shard=0/2'),
          X('d2-asan', 'asan', 'depth=2', 'alpha=0124', 'ppalpha=0'),
          X('d3-asan', 'asan', 'depth=3', 'alpha=01', 'ppalpha=0'),
          X('seq-asan', 'asan', 'kind=seq', 'alpha=01246', 'ppalpha=0'),
@@ -67,9 +67,8 @@ CHECK = {
       + S('d2-full', 'base', 8, 'depth=2', 'alpha=' + ALL, 'ppalpha=012')
       + S('d2-chain', 'base', 4, 'depth=2', 'alpha=0124', 'ppalpha=0124', 'chain=1')
       + S('d2-fork', 'base', 8, 'depth=2', 'alpha=0124', 'ppalpha=01', 'main=0', 'fork=1')
-      + S('d3', 'base', 16, 'depth=3', 'alpha=0124', 'ppalpha=0')
+      + S('d3', 'base', 32, 'depth=3', 'alpha=01245', 'ppalpha=0')
       + S('d3-pp', 'base', 8, 'depth=3', 'alpha=012', 'ppalpha=012')
-      + S('d3-calls', 'base', 8, 'depth=3', 'alpha=01245', 'ppalpha=0', 'shapes=body', 'dyns=lex')
       + S('seq', 'base', 2, 'kind=seq', 'alpha=' + ALL, 'ppalpha=012')
       + S('seqt', 'base', 8, 'kind=seqt', 'alpha=01245', 'ppalpha=0')
       + [X('d1-asan', 'asan', 'depth=1', 'alpha=' + ALL, 'ppalpha=' + ALL, 'chain=1', 'fresh=1')]
